@@ -118,12 +118,16 @@ impl Type {
                     })
                     .collect();
                 match nearest[..] {
+                    // a record of no class in particular (two records need no class in common)
+                    [] => Some(Self::Unknown),
                     [class_id] => {
                         Some(Self::Record(class_id, symbol_map.record(class_id).name.clone()))
                     }
-                    // a record of several classes, or of no class in particular (two records need
-                    // no class in common): there is no single type for that
-                    _ => Some(Self::Unknown),
+                    // a record of several classes: no single class says that. The first of the
+                    // two records stands for it: it is of every class they have in common, so the
+                    // value fits wherever one of these classes is asked for, and their fields
+                    // are found through it
+                    _ => Some(self.clone()),
                 }
             }
             _ => None,
